@@ -17,7 +17,7 @@ MotionOK(f, m) == CASE f = "Kenamond1" -> TRUE                       \* any comm
                     [] OTHER -> FALSE
 (* independent routes to the same solution (C07) *)
 RoutesOf(f, p) ==
-  CASE f = "Noh"  -> {"Noh=Cog19", "Noh=BlackBoxNoh", "wrapper"}
+  CASE f = "Noh"  -> {"Noh=Cog19", "Noh=BlackBoxNoh", "Noh=BlackBoxNoh.resolved", "wrapper"}   \* .resolved: the jump conditions solved a second time from another guess
     [] f = "Noh2" -> {"Noh2=Noh2Cog", "Noh2=Cog1", "wrapper"}
     [] f = "Sedov" -> {"wrapper"}
     [] f \in CogNone \cup CogDiv \cup CogFull \cup CogShock -> IF "geometry" \in DOMAIN p THEN {"wrapper"} ELSE {}
@@ -27,7 +27,7 @@ RoutesOf(f, p) ==
     [] OTHER -> {}
 
 HasDims == {"Noh", "Noh2", "Sedov", "RiemannIG", "Cog1", "Cog8", "EHEP", "Mader", "EPpiston", "Kenamond1", "Kenamond2",
-            "Kenamond3", "DSDcyl", "Blake", "Rod1D", "Hutchens1"}
+            "Kenamond3", "DSDcyl", "Blake", "Rod1D", "Hutchens1", "Guderley"}
 Scales == {[M |-> <<2, 1>>, L |-> <<1, 3>>, T |-> <<10, 1>>, K |-> <<7, 2>>],
            [M |-> <<1000, 1>>, L |-> <<10, 1>>, T |-> <<1, 3>>, K |-> <<1, 5>>]}
 Restrict(sc, grp) == [u \in {"M", "L", "T", "K"} |-> IF u \in grp THEN sc[u] ELSE <<1, 1>>]
